@@ -44,6 +44,22 @@ def assign_kinds(deps, variant):
     kinds = {}
     if variant == 0:
         return {n: "struct" for n in deps}
+    if variant == 2:
+        # types only, unions frequent (also unions of unions and structs of
+        # unions); unions that depend on an enum take their discriminators
+        # from its enumerators (symbolic discriminatorValue)
+        leaf_cycle = ["enum", "struct", "enum", "typedef"]
+        li = 0
+        for n in topo_order(deps):
+            ds = deps[n]
+            if not ds:
+                kinds[n] = leaf_cycle[li % 4]
+                li += 1
+            elif len(ds) == 1 and n % 4 == 0:
+                kinds[n] = "typedef"
+            else:
+                kinds[n] = "union" if n % 2 else "struct"
+        return kinds
     leaf_cycle = ["constant", "enum", "typedef", "struct"]
     li = 0
     for n in topo_order(deps):
@@ -86,6 +102,22 @@ def const_expr(n, ds, kinds, consts):
     return "%d+" % n + "*1+".join(names) + "*1", n + sum(vals)
 
 
+def union_discriminators(ds, kinds):
+    """{arm node: (discriminatorValue text, number)}: numeric, except that the
+    first two arms of a union depending on an enum are named by that enum's
+    enumerators (N<e>_A = e, N<e>_B = e + 10)"""
+    enums = [d for d in ds if kinds[d] == "enum"]
+    out = {}
+    for j, d in enumerate(ds):
+        if enums and j == 0:
+            out[d] = ("N%d_A" % enums[0], enums[0])
+        elif enums and j == 1:
+            out[d] = ("N%d_B" % enums[0], enums[0] + 10)
+        else:
+            out[d] = (str(100 + d), 100 + d)
+    return out
+
+
 def isar_elements(deps, kinds):
     """-> {node: xml element text}; names: N<i> (types), C<i> (constants)"""
     def nm(n):
@@ -104,7 +136,8 @@ def isar_elements(deps, kinds):
             else:
                 out[n] = '<typedef name="%s" primitiveType="16 bit integer unsigned"/>' % nm(n)
         elif k == "union":
-            arms = "".join('<member name="a%d" type="%s" discriminatorValue="%d"/>' % (d, nm(d), d) for d in ds)
+            disc = union_discriminators(ds, kinds)
+            arms = "".join('<member name="a%d" type="%s" discriminatorValue="%s"/>' % (d, nm(d), disc[d][0]) for d in ds)
             out[n] = '<union name="%s">%s</union>' % (nm(n), arms)
         else:
             members = ['<member name="own" type="u8"/>']
@@ -138,7 +171,8 @@ def schema_env_for_graph(deps, kinds):
         elif k == "typedef":
             defs.append(S.TypedefDef(S.Ref(idx[ds[0]]) if ds else S.Int(2)))
         elif k == "union":
-            defs.append(S.UnionDef([{"d": d, "t": S.Ref(idx[d])} for d in ds]))
+            disc = union_discriminators(ds, kinds)
+            defs.append(S.UnionDef([{"d": disc[d][1], "t": S.Ref(idx[d])} for d in ds]))
         else:
             ms = [S.Mem("plain", S.Int(1))]
             for d in ds:
